@@ -20,8 +20,11 @@
 (* description is not part of any property).  Warning multisets are BAGS    *)
 (* (Cfg!BagOfImage); the order of warnings is not specified.                *)
 (*                                                                         *)
-(* Input class (C16/C17): well-formed normalised programs (Cfg!WellFormed)  *)
-(* whose extern symbols have pairwise different names.                      *)
+(* Input class: extern symbols have pairwise different names.  C17 (needs   *)
+(* the graph): well-formed normalised programs (Cfg!WellFormed).  C16 is     *)
+(* syntactic: CallsTo ranges over ALL jumps of ALL blocks, so a call that is *)
+(* the second jump of a block (`[CBranch; Call]`) counts like any other      *)
+(* (T_C16!BlockShapeC16).                                                   *)
 (***************************************************************************)
 EXTENDS Cfg
 
